@@ -49,6 +49,10 @@ func replayOne(cfg Config, b *behaviour) *Driver {
 		slack := cfg.Unit / 2
 		for i := range b.Steps {
 			if !d.Apply(i, &b.Steps[i]) {
+				if timed && d.Div != "" && d.Drift() > slack {
+					// the step that diverged ran late: the divergence may be the clock's, not the cache's
+					d.Inconclusive, d.Div = fmt.Sprintf("real time ran %v ahead of the model clock", d.Drift()), ""
+				}
 				break
 			}
 			if timed && d.Drift() > slack {
@@ -119,6 +123,15 @@ func Run(args []string) *rep.Report {
 		d := replayOne(bc, &b)
 		if d.HTTP() {
 			httpRuns++
+		}
+		if d.Div != "" && hasTick(&b) && d.Div != "hang" && d.Div != "blocked-read" && d.Div != "auto-refresh-missing" {
+			// confirm before alarm: a behaviour with TTL steps runs against the real clock; what it shows must show again with a
+			// clock unit four times as long
+			c2 := bc
+			c2.Unit = 4 * cfg.Unit
+			if d2 := replayOne(c2, &b); d2.Div != d.Div {
+				d.Inconclusive, d.Div = "a "+d.Div+" in a timed behaviour did not reproduce with a longer clock unit (busy machine)", ""
+			}
 		}
 		if d.Div == "hang" || d.Div == "blocked-read" || d.Div == "auto-refresh-missing" {
 			// confirm before alarm: a call that really waits for ever does so again, with a longer watchdog
